@@ -160,6 +160,18 @@ type solverSpec struct {
 var solvers = []solverSpec{
 	{"z3-new-5.1.0", func(f string, t int) []string { return []string{"z3-new", fmt.Sprintf("-T:%d", t), f} }},
 	{"z3-4.8.12", func(f string, t int) []string { return []string{"z3", fmt.Sprintf("-T:%d", t), f} }},
+	{"z3-new-5.1.0(auto_config=false,seed=42)", func(f string, t int) []string {
+		return []string{"z3-new", fmt.Sprintf("-T:%d", t), "smt.auto_config=false", "smt.random_seed=42", f}
+	}},
+	{"z3-new-5.1.0(seed=7)", func(f string, t int) []string {
+		return []string{"z3-new", fmt.Sprintf("-T:%d", t), "smt.random_seed=7", f}
+	}},
+	{"z3-new-5.1.0(seed=1234)", func(f string, t int) []string {
+		return []string{"z3-new", fmt.Sprintf("-T:%d", t), "smt.random_seed=1234", f}
+	}},
+	{"z3-4.8.12(seed=5)", func(f string, t int) []string {
+		return []string{"z3", fmt.Sprintf("-T:%d", t), "smt.random_seed=5", f}
+	}},
 	{"cvc5-1.0", func(f string, t int) []string {
 		return []string{"cvc5", "--produce-models", fmt.Sprintf("--tlimit=%d", t*1000), f}
 	}},
@@ -168,7 +180,18 @@ var solvers = []solverSpec{
 var solverCalls int64
 var solverNanos int64
 
+var solverSlots = make(chan struct{}, 16)
+
 func runOne(ctx context.Context, sp solverSpec, file string, timeoutS int) SolverResult {
+	select {
+	case solverSlots <- struct{}{}:
+	case <-ctx.Done():
+		return SolverResult{Status: "unknown", Backend: sp.name}
+	}
+	defer func() { <-solverSlots }()
+	if ctx.Err() != nil {
+		return SolverResult{Status: "unknown", Backend: sp.name}
+	}
 	start := time.Now()
 	argv := sp.argv(file, timeoutS)
 	cctx, cancel := context.WithTimeout(ctx, time.Duration(timeoutS+2)*time.Second)
@@ -182,6 +205,14 @@ func runOne(ctx context.Context, sp solverSpec, file string, timeoutS int) Solve
 	atomic.AddInt64(&solverCalls, 1)
 	atomic.AddInt64(&solverNanos, int64(time.Since(start)))
 	raw := out.String()
+	// skip solver warnings in front of the answer
+	for strings.HasPrefix(raw, "WARNING") {
+		i := strings.Index(raw, "\n")
+		if i < 0 {
+			break
+		}
+		raw = raw[i+1:]
+	}
 	first := strings.TrimSpace(strings.SplitN(raw, "\n", 2)[0])
 	res := SolverResult{Backend: sp.name, Ms: ms, Raw: raw}
 	switch first {
@@ -211,24 +242,21 @@ func runOne(ctx context.Context, sp solverSpec, file string, timeoutS int) Solve
 // solve races the installed solvers on one query.  In quick mode the
 // first definite answer wins; in thorough mode all definite answers must
 // agree (a contradiction is reported as status "conflict").
-func solve(query string, dir string, name string, timeoutS int, thorough bool) SolverResult {
+func solve(query string, dir string, name string, timeoutS int, thorough bool, phase int) SolverResult {
 	file := filepath.Join(dir, name+".smt2")
-	if err := os.WriteFile(file, []byte(query), 0o644); err != nil {
-		return SolverResult{Status: "error", Raw: err.Error()}
+	if phase == 1 {
+		if err := os.WriteFile(file, []byte(query), 0o644); err != nil {
+			return SolverResult{Status: "error", Raw: err.Error()}
+		}
 	}
 	ctx, cancel := context.WithCancel(context.Background())
 	defer cancel()
-
-	// cvc5 rejects some z3-only syntax; the query generator avoids it.
-	type r struct{ res SolverResult }
-	ch := make(chan SolverResult, len(solvers))
-	// Stage 1: z3-new alone with a short timeout (cheap, decides most).
-	if !thorough {
-		first := runOne(ctx, solvers[0], file, min(timeoutS, 3))
-		if first.Status == "unsat" || first.Status == "sat" {
-			return first
-		}
+	if phase == 1 {
+		// phase 1: z3 5.1.0 alone with a short limit (decides most obligations)
+		return runOne(ctx, solvers[0], file, min(timeoutS, 5))
 	}
+	// phase 2: race all installed solvers
+	ch := make(chan SolverResult, len(solvers))
 	for _, sp := range solvers {
 		sp := sp
 		go func() { ch <- runOne(ctx, sp, file, timeoutS) }()
